@@ -625,7 +625,12 @@ func (mr *machineRun) runRole(role string, t *obsTriple, idx int, cases []opCase
 		return
 	}
 	for i := 0; i < cbSig.Params().Len(); i++ {
-		params = append(params, x.symbolic(st, fmt.Sprintf("%s$%d", role, i), cbSig.Params().At(i).Type()))
+		pv := x.symbolic(st, fmt.Sprintf("%s$%d", role, i), cbSig.Params().At(i).Type())
+		if isContextType(cbSig.Params().At(i).Type()) && pv.K == KU {
+			// induction hypothesis of C09: upstream never calls back with a nil context
+			st.assume(not(eq(pv.T, "nil")))
+		}
+		params = append(params, pv)
 	}
 	vars := map[string]SVal{}
 	pnames := cases[0].Params
@@ -692,6 +697,11 @@ func (mr *machineRun) runRole(role string, t *obsTriple, idx int, cases []opCase
 		pcs = append(pcs, e.st.PC)
 		add("nopanic", boolLit(e.ex.Kind != ExitPanic), "the callback does not panic", e.st.PC)
 		evs, closed := effective(e.st.Events)
+		for _, ev := range evs {
+			if strings.HasSuffix(ev.Name, "WithContext") && len(ev.Args) > 0 && ev.Args[0].K == KU {
+				add("ctx-nonnil", not(eq(ev.Args[0].T, "nil")), fmt.Sprintf("on %s: no notification is forwarded with a nil context", role), e.st.PC)
+			}
+		}
 		var guards []string
 		for ci, c := range cases {
 			cv := map[string]SVal{}
